@@ -79,7 +79,7 @@ impl<I: SendmsgSyscall> SendmsgSyscall for NioSendmsgSyscall<I> {
                     target_os = "android",
                     target_os = "emscripten"
                 ))] {
-                    let msg_iovlen = vec.len();
+                    let msg_iovlen = iov.len();
                 } else {
                     let msg_iovlen = c_int::try_from(iov.len()).unwrap_or_else(|_| {
                         panic!("{} msghdr.msg_iovlen overflow", crate::common::constants::SyscallName::recvmsg)
